@@ -6,4 +6,5 @@ INVARIANT InvNeverBetter
 INVARIANT InvAggConsistency
 INVARIANT InvOrder
 INVARIANT InvShift
+INVARIANT InvScale
 CHECK_DEADLOCK FALSE
